@@ -2,8 +2,10 @@
 pewlib.process.convolve against PewModel/Convolve.lean.
 
 Proved and modelled exactly over Rat: pad-mode convolution, series division (what the FFT quotient equals when
-nothing wraps), linspace, normalisation, the rational erf approximation, the gamma polynomial + recursion, the
-triangular density.  NOT proved: the numerical accuracy of erf/erfinv/gamma against the true functions and the
+nothing wraps) followed by Python's slice [: len c - len psf - 1] (negative stops included), linspace, normalisation
+and stacking, the rational erf approximation, the gamma polynomial + recursion, the triangular generator (completely),
+erfinv as coded around pi / log1p / sqrt (the driver evaluates it with math.log1p's value and a 30-digit rational
+square root).  NOT proved: the numerical accuracy of erf/erfinv/gamma against the true functions and the
 finiteness/positivity of the exp/log/power densities - these are validated numerically here against the standard
 library (math.erf, statistics.NormalDist().inv_cdf, math.gamma) with the property's tolerances."""
 import math
@@ -88,6 +90,7 @@ POS_KERNELS = ("exponential", "inversegamma", "loglaplace", "lognormal")
 SYM_KERNELS = ("laplace", "normal", "super_gaussian", "triangular")
 # container dtypes of the dtype class (C18 quantifies over signals and kernels, not over float64 arrays only)
 DTYPES = ["int32", "int64", "uint8", "float32", "float64"]
+KERNEL_TOL = 1e-8           # |weight - modelled weight| (weights lie in [0, 1]; the float axis is within an ulp of the exact one)
 TOL64, TOL32 = 1e-8, 1e-4   # deconvolution tolerance (relative to 1 + max|x|); float32 anywhere: rfft works in complex64
 
 
@@ -139,8 +142,14 @@ class C18(Prop):
     rule = ("PARTIAL EVIDENCE. convolve: signals of length m..40 (dyadic values, incl. constant signals), kernels of every "
             "length 1..9 (odd and even; sum-to-one and arbitrary signed), compared exactly with the Lean mechanism and with the "
             "Lean specification (length, interior = ordinary convolution, constants reproduced). deconvolve: full "
-            "convolutions of non-zero signals with first-tap-dominant kernels (|p0| >= 1.5 sum|rest|), modes valid/same, "
-            "tolerance 1e-8. DTYPE CLASS (convolve:dtype / deconv:dtype, ~10 % + ~14 % of the generated cases plus 162 targeted): "
+            "convolutions of signals of length m..40 (the shortest ones n = m, m+1, m+2 included) with first-tap-dominant "
+            "kernels (|p0| >= 1.5 sum|rest|), modes valid/same, tolerance 1e-8; ~45 % of the signals carry exactly zero "
+            "samples (deconv:zero:*: leading, trailing, interior, runs, all-zero, a single non-zero sample, zeros in the two "
+            "dropped trailing samples). MODEL-ONLY CLASSES, outside the property, counted as hypothesis_excluded: signals "
+            "shorter than the kernel (deconv:n<m) and arbitrary input arrays that are not full convolutions, down to one "
+            "sample (deconv-raw:*): the length always (Python's slice with a negative stop: r - (len psf + 1 - len c) of the "
+            "r = next power of two coefficients), the values when the driver finds that the quotient terminates; kernel "
+            "generators of size 1 (linspace(a, b, 1) = [a]). DTYPE CLASS (convolve:dtype / deconv:dtype, ~10 % + ~14 % of the generated cases plus 162 targeted): "
             "signal and kernel held in int32 / int64 / uint8 (non-negative) / float32 / float64 containers in every "
             "combination; convolve in pad mode against mechanism and specification and in the numpy modes full / valid / same "
             "against the Lean convolution, all exact; deconvolve (valid and same) applied to the full convolution that pewlib "
@@ -148,8 +157,9 @@ class C18(Prop):
             "samples compared with the original at 1e-8 (1e-4 when a float32 array takes part: numpy transforms it in single "
             "precision). Kernel generators: each of the 9 generators over its documented parameter domain with the axis "
             "inside the density's support (sizes 2..64, beta shapes >= 1 with >= 3 points, integer super-Gaussian powers, "
-            "scales, shifts): size, axis (vs Lean linspace), finite, non-negative, |sum-1| <= 1e-9; triangular also value by "
-            "value against the Lean model. BOUNDARY CLASS (kernel:boundary:*, ~14 % of the generated cases plus 170 targeted): "
+            "scales, shifts): size, axis (vs Lean linspace), finite, non-negative, |sum-1| <= 1e-9; every generator also "
+            "weight by weight against the Lean model (triangular exactly over Rat; the other eight with the model's "
+            "opaque exp / log / power / sqrt(2 pi) evaluated by the driver to 40 digits, |difference| <= 1e-8). BOUNDARY CLASS (kernel:boundary:*, ~14 % of the generated cases plus 170 targeted): "
             "parameters ON the limits of the documented domains with the density still finite on the axis - triangular with "
             "a == 0 or b == 0, support end points and the mode 0 exactly on the axis (odd sizes, shift 0 or whole steps), beta "
             "with a shape exactly 1 on axes touching 0 and 1, exponential on an axis that starts or ends at exactly 0, "
@@ -159,27 +169,37 @@ class C18(Prop):
             "validated numerically against math.erf (abs 5e-4, all reals incl. negative, tiny, huge), an inverse error "
             "function derived from statistics.NormalDist().inv_cdf (rel 6e-3 on (-1,1): |x| from 1e-99, 1-|x| down to one "
             "ulp) and math.gamma (rel 3e-7, 1e-9..30, integers and their float neighbours); erf and gamma additionally "
-            "against the exact Lean evaluation of the approximation as coded; oddness checked bit-exactly. "
+            "against the exact Lean evaluation of the approximation as coded; erfinv against erfinvWith (the code's structure "
+            "around pi, log1p, sqrt: math.pi, math.log1p's value, a 30-digit rational square root; rel 1e-10); oddness "
+            "checked bit-exactly. "
             "non-trivial = every case; distinct by canonical case hash")
-    trusted = ["np.pad(mode='edge'), np.convolve(mode='valid'), np.linspace, np.trim_zeros as documented; "
+    trusted = ["np.pad(mode='edge'), np.convolve(mode='valid'), np.linspace, np.stack, Python slicing as documented; "
                "irfft(rfft(c, r)/rfft(psf, r), r) equals the power-series quotient when the quotient has fewer than r "
-               "coefficients and the spectrum of psf has no zero",
+               "coefficients (decided by the driver for every case: quotientTerminates) and the spectrum of psf has no zero "
+               "(first-tap-dominant kernels)",
+               "the driver's 40-digit exp / log / power and 30-digit sqrt (PewDriver/C18.lean: Taylor series in fixed point) "
+               "are accurate to far better than the comparison tolerances; they are NOT part of any theorem (the theorems "
+               "quantify over the special functions)",
                "math.erf, math.gamma and statistics.NormalDist().inv_cdf are accurate to far better than the tolerances"]
     assumptions = ["VALIDATED, NOT PROVED: accuracy of the erf (5e-4 abs), erfinv (6e-3 rel) and gamma (3e-7 rel) approximations "
                    "against the true functions - checked on the dense grids and random arguments of this run only; Mathlib has no "
                    "erf and no verified bounds for these approximations",
-                   "VALIDATED, NOT PROVED: finiteness, non-negativity and unit sum of the exp/log/power kernel generators - "
-                   "checked numerically on generated parameters; proved only: normalisation by a positive sum of non-negative "
-                   "finite values gives weights in [0,1] that sum to one (normalise_sums_to_one), linspace (linspace_spec)",
-                   "erfinv itself (log1p, sqrt, pi) is not modelled; only its shape sign(x)*g(x*x) (erfinv_odd)",
+                   "kernel generators: PROVED in exact real arithmetic (triangular completely over Rat; the other eight for every "
+                   "exp > 0, positive power of a positive base, 0**y >= 0, sqrt(2 pi) > 0 - Special.Sound, discharged for the real "
+                   "functions by realSpecial_sound): size, axis, weights in [0,1], unit sum over the documented parameter domains. "
+                   "VALIDATED, NOT PROVED: that the FLOAT evaluation stays finite and non-negative (exp underflowing to 0 on the "
+                   "whole axis, overflow of a power) - checked numerically on generated parameters",
+                   "erfinv is modelled as coded around pi, log1p and sqrt (erfinvWith; odd for every choice of them: erfinv_odd); "
+                   "its accuracy is validated only",
                    "kernel parameter domain: the sampled axis lies inside the support of the density (beta: [0,1]; exponential, "
                    "inverse gamma, log-Laplace, log-normal: x > 0, shift >= 1e-6) and at least one axis point carries density "
                    "above the underflow range; outside that domain (e.g. beta with scale 2) the generators return NaN/negative "
                    "weights and the property's 'density finite on that axis' excludes them",
                    "known finding C18-erfinv-underflow: erfinv(x) = 0 for 0 < |x| < 1e-160; the grid stops at 1e-99, one targeted "
                    "case exercises it and is routed through known()",
-                   "deconvolve is checked on signals without zero samples (np.trim_zeros would otherwise shorten the exact result) "
-                   "and first-tap-dominant kernels ('well-conditioned'); evaluate counts anything else as undetermined",
+                   "deconvolve is checked on first-tap-dominant kernels ('well-conditioned'; |p0| >= 1.25 sum|rest| inside "
+                   "evaluate); evaluate counts any other kernel as undetermined. Zero samples are ordinary samples since /repo "
+                   "5e4648b (no np.trim_zeros)",
                    "dtype class: every sample representable in its container and every partial sum of the convolution exact in "
                    "numpy's result dtype (no integer wrap-around - uint8 signals/kernels are kept small -, no float32 rounding); "
                    "evaluate recomputes this bound for any case and counts a case outside it as undetermined",
@@ -202,8 +222,75 @@ class C18(Prop):
             if any(w):
                 return w
 
+    @staticmethod
+    def gen_dominant(rng, m):
+        """first-tap-dominant kernel (|p0| >= 1.5 sum|rest|), in eighths"""
+        p0 = rng.choice([-1, 1]) * rng.randint(12, 24)
+        budget = abs(p0) * 2 // 3
+        rest = []
+        for _ in range(m - 1):
+            v = rng.randint(-budget, budget) if budget > 0 else 0
+            rest.append(v)
+            budget -= abs(v)
+        return [p0] + rest
+
+    @staticmethod
+    def put_zeros(rng, x, lo=0.55):
+        """exactly zero samples: leading, trailing, interior, runs, everything (about 45 % of the signals get some)"""
+        x = list(x)
+        n = len(x)
+        how = rng.random()
+        if how < lo or n == 0:
+            return x
+        pick = rng.choice(["lead", "lead", "trail", "interior", "run", "lead-run", "trail-run", "ends", "all", "sparse", "mixed"])
+        if pick in ("lead", "ends", "mixed"):
+            x[0] = 0
+        if pick in ("trail", "ends", "mixed"):
+            x[-1] = 0
+        if pick in ("interior", "mixed") and n >= 3:
+            x[rng.randrange(1, n - 1)] = 0
+        if pick == "run" and n >= 4:
+            i = rng.randrange(1, n - 2)
+            for j in range(i, min(n - 1, i + rng.randint(2, 5))):
+                x[j] = 0
+        if pick == "lead-run":
+            for j in range(min(n, rng.randint(2, 4))):
+                x[j] = 0
+        if pick == "trail-run":
+            for j in range(min(n, rng.randint(2, 4))):
+                x[n - 1 - j] = 0
+        if pick == "all":
+            x = [0] * n
+        if pick == "sparse":
+            keep = rng.randrange(n)
+            x = [v if i == keep else 0 for i, v in enumerate(x)]
+        return x
+
+    @staticmethod
+    def zero_features(xq):
+        """which kinds of exactly zero samples a signal has"""
+        z = [v == 0 for v in xq]
+        f = set()
+        if not any(z):
+            return f
+        f.add("deconv:zero-sample")
+        if all(z):
+            f.add("deconv:zero:all-zero")
+            return f
+        if z[0]:
+            f.add("deconv:zero:leading")
+        if z[-1]:
+            f.add("deconv:zero:trailing")
+        if any(z[1:-1]):
+            f.add("deconv:zero:interior")
+        if any(a and b for a, b in zip(z, z[1:])):
+            f.add("deconv:zero:run")
+        if len(z) >= 2 and z[-1] and z[-2]:
+            f.add("deconv:zero:in-the-dropped-last-two")
+        return f
+
     def generate(self, rng, tier):
-        kind = rng.choice(["convolve"] * 4 + ["deconv"] * 2 + ["kernel"] * 4 + ["erf", "erfinv", "gamma"]
+        kind = rng.choice(["convolve"] * 4 + ["deconv"] * 3 + ["deconv-raw"] + ["kernel"] * 4 + ["erf", "erfinv", "gamma"]
                           + ["kernel-boundary"] * 3 + ["convolve-dtype"] * 2 + ["deconv-dtype"] * 3)
         if kind == "kernel-boundary":
             return self.gen_kernel_boundary(rng)
@@ -221,16 +308,18 @@ class C18(Prop):
             return {"kind": kind, "x": x, "psf": self.gen_psf(rng, m, unit)}
         if kind == "deconv":
             m = rng.choice([1, 2, 3, 3, 4, 5, 6])
-            n = rng.randint(max(m, 3), 40)
+            n = rng.choice([m, m + 1, m + 2]) if rng.random() < 0.15 else rng.randint(max(m, 3), 40)
             x = [rng.choice([-1, 1]) * rng.randint(1, 100) if rng.random() < 0.3 else rng.randint(1, 100) for _ in range(n)]
-            p0 = rng.choice([-1, 1]) * rng.randint(12, 24)
-            budget = abs(p0) * 2 // 3
-            rest = []
-            for _ in range(m - 1):
-                v = rng.randint(-budget, budget) if budget > 0 else 0
-                rest.append(v)
-                budget -= abs(v)
-            return {"kind": kind, "x": x, "psf": [p0] + rest, "mode": rng.choice(["valid", "same"])}
+            x = self.put_zeros(rng, x)
+            return {"kind": kind, "x": x, "psf": self.gen_dominant(rng, m), "mode": rng.choice(["valid", "same"])}
+        if kind == "deconv-raw":
+            # any input array, not a full convolution, as short as one sample: outside the property, model against code
+            m = rng.choice([1, 2, 3, 3, 4, 5, 6, 8, 9])
+            k = rng.choice([1, 1, 2, m - 1, m, m, m + 1, m + 2, rng.randint(1, 2 * m + 3)])
+            c = [rng.randint(-100, 100) for _ in range(max(1, k))]
+            if rng.random() < 0.3:
+                c = self.put_zeros(rng, c)
+            return {"kind": kind, "c": c, "psf": self.gen_dominant(rng, m), "mode": rng.choice(["valid", "same"])}
         if kind == "kernel":
             return self.gen_kernel(rng)
         if kind == "erf":
@@ -387,6 +476,7 @@ class C18(Prop):
             x = [rng.randint(1, 12) for _ in range(n)]
         else:
             x = [rng.choice([-1, 1]) * rng.randint(1, 100) if rng.random() < 0.3 else rng.randint(1, 100) for _ in range(n)]
+        x = self.put_zeros(rng, x, lo=0.7)
         small = "uint8" in (xdt, pdt)           # keep the full convolution inside 0..255
         p0 = rng.randint(6, 12) if small else rng.choice([-1, 1]) * rng.randint(12, 24)
         budget = abs(p0) * 2 // 3
@@ -416,6 +506,25 @@ class C18(Prop):
         yield {"kind": "deconv", "x": [5, 3, 8, 1, 9, 2, 7], "psf": [19, 10, 3], "mode": "valid"}
         yield {"kind": "deconv", "x": [5, 3, 8, 1, 9, 2, 7], "psf": [19, 10, 3], "mode": "same"}
         yield {"kind": "deconv", "x": [5, 3, 8], "psf": [16], "mode": "valid"}
+        # exactly zero samples (the defect repaired by /repo 5e4648b: np.trim_zeros shifted the result)
+        for mode in ("valid", "same"):
+            yield {"kind": "deconv", "x": [0, 9, 5, 43, 2, 27, 4, 15, 24], "psf": [8, 1], "pden": 1, "mode": mode}
+            yield {"kind": "deconv", "x": [0, 0, 0, 7, 5, 3, 8, 1], "psf": [19, 10, 3], "mode": mode}
+            yield {"kind": "deconv", "x": [7, 5, 3, 8, 1, 0, 0, 0], "psf": [19, 10, 3], "mode": mode}
+            yield {"kind": "deconv", "x": [7, 0, 0, 0, 3, 0, 1, 6, 2], "psf": [16, -4, 2, 1], "mode": mode}
+            yield {"kind": "deconv", "x": [0] * 9, "psf": [16, 4], "mode": mode}
+            yield {"kind": "deconv", "x": [0, 0, 0, 0, 11, 0, 0, 0, 0, 0], "psf": [16, 4, -2], "mode": mode}
+            yield {"kind": "deconv", "x": [0, 4, 0, 4, 0, 4, 0, 4, 0], "psf": [12, 6], "mode": mode}
+            # the shortest signals the quantifier allows (n = m, m + 1, m + 2) and shorter ones (model only)
+            for m in (1, 2, 3, 5):
+                psf = [20] + [3] * (m - 1)
+                for n in sorted({1, 2, m - 1, m, m + 1, m + 2} - {0}):
+                    yield {"kind": "deconv", "x": [(3 * i) % 7 for i in range(n)], "psf": psf, "mode": mode}
+            # arbitrary input arrays no longer than the kernel: the stop of the slice is negative
+            for c, psf in [([5], [16]), ([5], [16, 4]), ([5, -3], [16, 4]), ([5, -3], [16, 4, 1]), ([5, -3, 2], [16, 4, 1]),
+                           ([1, 2, 3, 4], [16, 4, 1, 1, 2]), ([9], [24, 1, 1, 1, 1, 1, 1, 1, 1]), ([0, 0], [16, 4, 1]),
+                           ([8, 2, 0], [8, 2]), ([8, 2, 0, 0, 0], [8, 2]), ([3, 1, 4, 1, 5, 9, 2, 6], [16, 4, 1])]:
+                yield {"kind": "deconv-raw", "c": c, "psf": psf, "mode": mode}
         # the kernel tables of the repo's own test (size 10, default scale/shift)
         for name, args, scale, shift in [("beta", [1.0, 2.0], 1.0, 0.0), ("exponential", [1.0], 1.0, 1e-6),
                                          ("inversegamma", [1.0, 1.0], 1.0, 1e-6), ("laplace", [1.0, 1.0], 1.0, 0.0),
@@ -426,6 +535,8 @@ class C18(Prop):
                 if name == "beta" and size < 3:
                     continue
                 yield {"kind": "kernel", "name": name, "size": size, "args": args, "scale": scale, "shift": shift}
+            yield {"kind": "kernel", "name": name, "size": 1, "args": args, "scale": scale, "shift": shift}   # model only
+            yield {"kind": "kernel", "name": name, "size": 1, "args": args, "scale": 0.5, "shift": shift + 0.25}
         # parameters on the limits of the documented domains, axes through exact 0.0 / support end points / the location
         K = lambda name, size, args, scale, shift: {"kind": "kernel", "name": name, "size": size, "args": args,
                                                     "scale": scale, "shift": shift, "boundary": True}
@@ -467,7 +578,7 @@ class C18(Prop):
     # ------------------------------------------------------------------ evaluation
     def evaluate(self, case, ctx):
         with np.errstate(all="ignore"):
-            return getattr(self, "eval_" + case["kind"])(case, ctx)
+            return getattr(self, "eval_" + case["kind"].replace("-", "_"))(case, ctx)
 
     def eval_convolve(self, case, ctx):
         from pewlib.process import convolve as cv
@@ -527,12 +638,11 @@ class C18(Prop):
         pq = [Fraction(v, case.get("pden", 8)) for v in case["psf"]]
         mode = case["mode"]
         why = dtype_domain(xdt, pdt, xq, pq)
-        if why is None and any(v == 0 for v in xq):
-            why = "zero sample (np.trim_zeros may shorten the exact result)"
-        if why is None and (len(xq) < max(len(pq), 3) or 4 * abs(pq[0]) < 5 * sum(abs(v) for v in pq[1:])):
-            why = "kernel not first-tap dominant (|p0| >= 1.25 sum|rest|: condition number <= 9) / signal too short"
+        if why is None and 4 * abs(pq[0]) < 5 * sum(abs(v) for v in pq[1:]):
+            why = "kernel not first-tap dominant (|p0| >= 1.25 sum|rest|: condition number <= 9)"
         if why is not None:
             return outcome({}, {}, {}, spec_ok=True, model_ok=True, undetermined=True, features=["deconv:outside-domain"], note=why)
+        inq = len(xq) >= len(pq)            # the property's quantifier: signals at least as long as the kernel
         rep = ctx.driver.call("c18.deconv", x=[core.rat(v) for v in xq], psf=[core.rat(v) for v in pq])
         cexact = [fl(v) for v in rep["c"]]
         psf = np.array([float(v) for v in pq]).astype(pdt)
@@ -548,22 +658,65 @@ class C18(Prop):
             out = [float(v) for v in res]
         except Exception as e:
             return outcome({"raises": type(e).__name__}, {}, {}, spec_ok=False, model_ok=False, features=["deconv:raises"])
-        spec = [fl(v) for v in rep["spec"]]                       # the leading n - 2 samples (trimming arithmetic)
+        spec = [fl(v) for v in rep["spec"]]                       # the leading n - 2 samples (deconvolve_fullConv)
         model = [fl(v) for v in (rep["model"] if mode == "valid" else rep["model_same"])]
         xs = [float(v) for v in xq]
         # the property fixes what the samples are, not how many: demand at least the n - 2 leading samples of x,
         # and in 'valid' mode nothing but leading samples of x
         lead = out if mode == "valid" else out[: len(spec)]
         spec_ok = len(spec) <= len(lead) <= len(xs) and all(abs(a - b) <= tol for a, b in zip(lead, xs))
-        model_ok = full == cexact and len(out) == len(model) and all(abs(a - b) <= tol for a, b in zip(out, model))
-        feats = {"deconv", "deconv:" + mode, f"deconv:m={len(pq)}"}
+        # the quotient of a full convolution terminates (deconv_conv), so the model's values are comparable
+        model_ok = bool(rep["terminates"]) and full == cexact and len(out) == len(model) and \
+            all(abs(a - b) <= tol for a, b in zip(out, model))
+        feats = {"deconv", "deconv:" + mode, f"deconv:m={len(pq)}"} | self.zero_features(xq)
+        if len(xq) <= len(pq) + 2:
+            feats.add("deconv:n-m=" + str(len(xq) - len(pq)) if inq else "deconv:n<m(model-only)")
         if typed:
             feats |= self.dtype_features("deconv", xdt, pdt, res)
             feats.add(f"deconv:dtype:full-convolution-{c.dtype}")
             if c.dtype.kind in "iu":
                 feats.add(f"deconv:dtype:integer-full-convolution,{mode}")
+        if not inq:     # shorter than the kernel: outside the property; the model (negative slice stop) is still compared
+            spec_ok = True
         return outcome({"full": full, "values": out}, {"full": cexact, "values": model}, {"leading": spec}, spec_ok=spec_ok,
-                       model_ok=model_ok, features=feats)
+                       model_ok=model_ok, hyp=inq, features=feats)
+
+    def eval_deconv_raw(self, case, ctx):
+        """deconvolve applied to an arbitrary array (any length >= 1): outside the property; compared with the model
+        only - the length always (Python's slice with a negative stop), the values when the quotient terminates"""
+        from pewlib.process import convolve as cv
+
+        cq = [Fraction(v) for v in case["c"]]
+        pq = [Fraction(v, case.get("pden", 8)) for v in case["psf"]]
+        mode = case["mode"]
+        if not cq or not pq or 4 * abs(pq[0]) < 5 * sum(abs(v) for v in pq[1:]):
+            return outcome({}, {}, {}, spec_ok=True, model_ok=True, undetermined=True, features=["deconv:outside-domain"],
+                           note="empty input or kernel not first-tap dominant")
+        rep = ctx.driver.call("c18.deconv_raw", c=[core.rat(v) for v in cq], psf=[core.rat(v) for v in pq])
+        try:
+            res = cv.deconvolve(np.array([float(v) for v in cq]), np.array([float(v) for v in pq]), mode=mode)
+            out = [float(v) for v in res]
+        except Exception as e:
+            return outcome({"raises": type(e).__name__}, {}, {}, spec_ok=True, model_ok=False, hyp=False,
+                           features=["deconv-raw:raises"])
+        mvalid = [fl(v) for v in rep["model"]]
+        model = mvalid if mode == "valid" else [fl(v) for v in rep["model_same"]]
+        tol = TOL64 * (1 + max(abs(float(v)) for v in cq))
+        term = bool(rep["terminates"])
+        model_ok = len(out) == len(model)
+        if model_ok and mode == "same":         # the copied tail c[rec.size:] is exact whatever the quotient does
+            model_ok = out[len(mvalid):] == model[len(mvalid):]
+        if model_ok and term:
+            model_ok = all(abs(a - b) <= tol for a, b in zip(out, model))
+        n, m = len(cq), len(pq)
+        feats = {"deconv-raw", "deconv-raw:" + mode,
+                 "deconv-raw:len-c" + ("<" if n < m else "=" if n == m else "=len-psf+1" if n == m + 1 else ">") + ("len-psf" if n != m + 1 else ""),
+                 "deconv-raw:quotient-" + ("terminates(values-compared)" if term else "does-not-terminate(length-only)")}
+        if n <= m:
+            feats.add("deconv-raw:negative-slice-stop")
+        impl = {"length": len(out), "values": out if term else "not compared"}
+        mdl = {"length": len(model), "values": model if term else "not compared"}
+        return outcome(impl, mdl, {}, spec_ok=True, model_ok=model_ok, hyp=False, features=feats)
 
     def special(self, case, ctx, name, impl_fn, true_fn, ok_fn, model_op=None, model_rel=1e-10, model_max=1e6, model_abs=1e-300):
         xs = [float(x) for x in case["xs"]]
@@ -616,16 +769,34 @@ class C18(Prop):
 
         run = lambda xs: [float(cv.erfinv(x)) for x in xs]
         ok = lambda v, t: (v == t) if t == 0 else abs(v - t) <= ERFINV_REL * abs(t)
-        impl, model, spec, sok, _, feats = self.special(case, ctx, "erfinv", run, erfinv_true, ok)
+        impl, _, spec, sok, _, feats = self.special(case, ctx, "erfinv", run, erfinv_true, ok)
         xs = [float(x) for x in case["xs"]]
         pos, neg = run(xs), run([-x for x in xs])
         notodd = [x.hex() for x, a, b in zip(xs, pos, neg) if not (a == -b)]
-        model = {"shape_sign_times_even_function_violated_at": notodd}
+        # the model: erfinv as coded around pi, log1p and sqrt (erfinvWith).  The opaque pieces get the standard library's
+        # values (math.pi, math.log1p at the float -x*x the code forms) and a 30-digit rational square root; the rest
+        # (sign, constants, the two nested quotients) is evaluated exactly by the driver
+        ls = [math.log1p(-x * x) if abs(x) < 1 else math.nan for x in xs]
+        idx = [i for i, l in enumerate(ls) if math.isfinite(l)]
+        differs, modelodd = [], []
+        if idx:
+            rep = ctx.driver.call("c18.erfinv", xs=[core.rat(xs[i]) for i in idx], ls=[core.rat(ls[i]) for i in idx],
+                                  pi=core.rat(math.pi))
+            for i, mv, mn in zip(idx, rep["model"], rep["model_neg"]):
+                if not near(pos[i], fl(mv), 1e-10):
+                    differs.append([xs[i].hex(), pos[i].hex(), fl(mv).hex()])
+                if unrat(mv) != -unrat(mn):
+                    modelodd.append(xs[i].hex())
+        impl["not_odd"], impl["differs_from_erfinvWith"] = notodd, differs
+        model = {"not_odd": [], "differs_from_erfinvWith": [], "model_itself_not_odd": modelodd}
+        spec["not_odd"] = notodd            # oddness of erfinv is a model fact (erfinv_odd), not a clause of the property
         if any(1 - abs(x) < 1e-9 for x in xs):
             feats.add("erfinv:near-one")
         if any(0 < abs(x) < UNDERFLOW for x in xs):
             feats.add("erfinv:underflow-range")
-        return outcome(impl, model, spec, spec_ok=sok, model_ok=not notodd, features=feats)
+        if idx:
+            feats.add("erfinv:model-evaluated")
+        return outcome(impl, model, spec, spec_ok=sok, model_ok=not notodd and not differs and not modelodd, features=feats)
 
     def eval_gamma(self, case, ctx):
         from pewlib.process import convolve as cv
@@ -682,6 +853,8 @@ class C18(Prop):
         axis_kind = "unit" if name == "beta" else "pos" if name in POS_KERNELS else "sym"
         rep = ctx.driver.call("c18.axis", kind=axis_kind, size=size, scale=core.rat(scale), shift=core.rat(shift))
         axq = [unrat(v) for v in rep["x"]]
+        if size == 1:
+            return self.eval_kernel_one(case, ctx, axq)
         why = self.kernel_domain(name, size, args, axq)
         try:
             out = np.asarray(getattr(cv, name)(size, *args, scale=scale, shift=shift), dtype=float) if why is None else None
@@ -692,6 +865,7 @@ class C18(Prop):
             r2 = ctx.driver.call("c18.triangular", size=size, a=core.rat(args[0]), b=core.rat(args[1]),
                                  scale=core.rat(scale), shift=core.rat(shift))
             my = [fl(v) for v in r2["y"]]
+            thyp = bool(r2["hyp"])      # the hypotheses of triangular_spec: a < b and an axis point strictly inside (a, b)
             # normalisation needs an axis point that carries density whichever way the float axis rounds: one clear of
             # the support edges, or the mode 0 itself when it sits on the exact axis AND the returned axis holds 0.0 there
             mrg = Fraction(1e-9) * max([1] + [abs(v) for v in axq])
@@ -713,7 +887,7 @@ class C18(Prop):
                 "non_negative": bool(shape_ok and all(v >= 0 for v in y)),
                 "sums_to_one": bool(shape_ok and abs(math.fsum(y) - 1.0) <= 1e-9)}
         spec = {"shape": [size, 2], "axis_matches_linspace": True, "finite": True, "non_negative": True, "sums_to_one": True}
-        model, model_ok = {"axis": "lean linspace", "values": "not modelled"}, axis_ok
+        model, model_ok, valued = {"axis": "lean linspace", "values": "not compared"}, axis_ok, False
         if name == "triangular" and shape_ok:
             # an axis point within rounding of a kink / support edge may fall on either side of it in floating point
             # (and the density jumps at 0 when a == 0 or b == 0): compare value by value only when every such point is
@@ -723,7 +897,24 @@ class C18(Prop):
                        for v, xi in zip(axq, x) for e in edges)
             model_ok = axis_ok and (edge or all(abs(a - b) <= 1e-9 for a, b in zip(y, my)))
             model = {"axis": "lean linspace", "values": "lean triangular" + (" (edge within rounding: skipped)" if edge else "")}
+        elif shape_ok:
+            # the generator as modelled (density formula as coded, normalisation, stacking), the opaque exp / log / power /
+            # sqrt(2 pi) evaluated by the driver to 40 digits; weight by weight
+            margs = [float(int(v)) if name == "super_gaussian" and i == 2 else v for i, v in enumerate(args)]
+            rk = ctx.driver.call("c18.kernel", name=name, size=size, args=[core.rat(v) for v in margs],
+                                 scale=core.rat(scale), shift=core.rat(shift))
+            if rk["y"] is None:
+                model = {"axis": "lean linspace", "values": "a modelled value left the domain of exp / log / power: not compared"}
+            else:
+                my = [fl(v) for v in rk["y"]]
+                worst = max(abs(a - b) for a, b in zip(y, my)) if all(math.isfinite(v) for v in y) else math.inf
+                model_ok = axis_ok and worst <= KERNEL_TOL
+                model = {"axis": "lean linspace", "values": "lean " + name + " (40-digit exp/log/pow)",
+                         "weights_within": KERNEL_TOL if worst <= KERNEL_TOL else worst}
+                valued = True
         feats = {"kernel:" + name, "kernel:size=" + (str(size) if size <= 3 else "4+")}
+        if valued:
+            feats.add("kernel:weights-compared-with-the-model")
         if scale != 1.0:
             feats.add("kernel:scaled")
         if shift not in (0.0, 1e-6):
@@ -764,7 +955,34 @@ class C18(Prop):
         if case.get("boundary"):
             bd.add("generated")
         feats |= {"kernel:boundary:" + f for f in bd}
+        if name == "triangular":
+            feats.add("kernel:triangular:" + ("hypotheses-of-triangular_spec-hold" if thyp else
+                                               "density-only-at-the-mode(outside-triangular_spec)"))
         return outcome(impl, model, spec, model_ok=model_ok, features=feats)
+
+    def eval_kernel_one(self, case, ctx, axq):
+        """size 1 (outside the property's sizes 2..n): np.linspace(a, b, 1) = [a] (linspace_one) and the single weight is
+        y/y = 1; compared with the model only"""
+        from pewlib.process import convolve as cv
+
+        name, args, scale, shift = case["name"], case["args"], case["scale"], case["shift"]
+        try:
+            out = np.asarray(getattr(cv, name)(1, *args, scale=scale, shift=shift), dtype=float)
+        except Exception as e:
+            return outcome({"raises": type(e).__name__}, {}, {}, spec_ok=True, model_ok=False, hyp=False,
+                           features=["kernel:size=1:raises"])
+        impl = {"shape": list(out.shape), "axis": [float(v).hex() for v in out[:, 0]] if out.shape == (1, 2) else None}
+        model = {"shape": [1, 2], "axis": [float(v).hex() for v in axq]}
+        feats = {"kernel:size=1(model-only)", "kernel:size=1:" + name}
+        if name == "triangular":
+            r2 = ctx.driver.call("c18.triangular", size=1, a=core.rat(args[0]), b=core.rat(args[1]),
+                                 scale=core.rat(scale), shift=core.rat(shift))
+            my = [unrat(v) for v in r2["y"]]
+            a_, b_, x0 = Fraction(args[0]), Fraction(args[1]), axq[0]
+            if my == [1] and a_ < x0 < b_ and x0 != 0 and out.shape == (1, 2):     # clear of the kinks: the weight is 1
+                impl["weights"], model["weights"] = [float(out[0, 1])], [1.0]
+                feats.add("kernel:size=1:triangular-weight")
+        return outcome(impl, model, {}, spec_ok=True, hyp=False, features=feats)
 
     # ------------------------------------------------------------------ known findings / shrinking
     def known(self, case, out):
@@ -779,11 +997,19 @@ class C18(Prop):
             h = len(case["xs"]) // 2
             yield {**case, "xs": case["xs"][:h]}
             yield {**case, "xs": case["xs"][h:]}
+        if case["kind"] == "deconv-raw" and len(case["c"]) > 1:
+            yield {**case, "c": case["c"][:-1]}
+            yield {**case, "c": case["c"][1:]}
         if case["kind"] in ("convolve", "deconv"):
             x, p = case["x"], case["psf"]
-            if len(x) > max(len(p), 3):
+            if len(x) > (len(p) if case["kind"] == "convolve" else 1):
                 yield {**case, "x": x[:-1]}
                 yield {**case, "x": x[1:]}
+            if case["kind"] == "deconv":
+                for i, v in enumerate(x):
+                    if v not in (0, 1):
+                        yield {**case, "x": x[:i] + [1] + x[i + 1:]}
+                        break
             if len(p) > 1 and case["kind"] == "convolve":
                 yield {**case, "psf": p[:-1]}
         if case["kind"] == "kernel" and case["size"] > 3:
